@@ -1,7 +1,8 @@
 // Correspondence + oracle driver for C04: SAX event scripts through the real XML serializers.
 //
 // Input, one case per line:
-//   <id> <encoding> <version 1.0|1.1> [-L] <event>*        (-L: do not run the legacy serializer)
+//   <id> <encoding> <version 1.0|1.1> [-L] [-I<n>] <event>*   (-L: do not run the legacy serializer;
+//                                                             -I<n>: doIndent = true, indent amount n; implies -L)
 //   event ::= S <u:name> <n> (<u:attrname> <u:attrvalue>){n}   startElement
 //           | E <u:name>                                        endElement
 //           | T <u:text>                                        characters
@@ -73,7 +74,7 @@ static void replay(FormatterListener& fl, const std::vector<Event>& evs)
 
 // returns "ok:<hex>" or "err:<class>"; bytes in `out`
 static std::string serialize(bool legacy, const std::string& enc, const std::string& ver,
-                             const std::vector<Event>& evs, std::string& out)
+                             const std::vector<Event>& evs, std::string& out, int indent = -1)
 {
     MemoryManager& mm = XalanMemMgrs::getDefaultXercesMemMgr();
     std::ostringstream os;
@@ -86,7 +87,7 @@ static std::string serialize(bool legacy, const std::string& enc, const std::str
         if (legacy)
             fl = FormatterToXML::create(mm, writer, version, false, 0, encoding, empty, empty, empty, true, empty);
         else
-            fl = XalanXMLSerializerFactory::create(mm, writer, version, false, 0, encoding, empty, empty, empty, true, empty);
+            fl = XalanXMLSerializerFactory::create(mm, writer, version, indent >= 0, indent >= 0 ? indent : 0, encoding, empty, empty, empty, true, empty);
         struct Del { FormatterListener* p; MemoryManager& m; ~Del() { if (p) { p->~FormatterListener(); m.deallocate(p); } } } del = { fl, mm };
         replay(*fl, evs);
         writer.flush();
@@ -177,8 +178,16 @@ int main(int argc, char** argv)
         if (t.size() < 3 || t[0][0] == '#') continue;
         std::vector<Event> evs;
         bool bad = false;
-        const bool nolegacy = t.size() > 3 && t[3] == "-L";
-        for (size_t i = nolegacy ? 4 : 3; i < t.size() && !bad; ) {
+        bool nolegacy = false;
+        int indent = -1;
+        size_t first = 3;
+        while (first < t.size() && t[first].size() >= 2 && t[first][0] == '-') {
+            if (t[first] == "-L") nolegacy = true;
+            else if (t[first][1] == 'I') { indent = std::atoi(t[first].c_str() + 2); nolegacy = true; }
+            else break;
+            ++first;
+        }
+        for (size_t i = first; i < t.size() && !bad; ) {
             Event e; e.kind = t[i][0];
             switch (e.kind) {
             case 'S': {
@@ -202,7 +211,7 @@ int main(int argc, char** argv)
         }
         if (bad) { std::cout << t[0] << " badscript" << std::endl; continue; }
         std::string nb, ob;
-        std::string ns = serialize(false, t[1], t[2], evs, nb);
+        std::string ns = serialize(false, t[1], t[2], evs, nb, indent);
         std::string np = ns.compare(0, 3, "ok:") == 0 ? reparse(nb) : std::string("-");
         std::string osn = nolegacy ? std::string("skipped") : serialize(true, t[1], t[2], evs, ob);
         std::string op = osn.compare(0, 3, "ok:") == 0 ? reparse(ob) : std::string("-");
